@@ -294,7 +294,7 @@ def make_case(prop, tier, seed, i):
         pre = {"atlas": "a", "cms_aod": "c", "cms_miniaod": "m"}[b]
         qa = _query(rng, b, name=rng.choice([pre + "_cols_pt", pre + "_cols_pt", pools.QUERIES[b][rng.randrange(len(pools.QUERIES[b]))][0]]),
                     md_rate=0.0, foreign_rate=0.0, omit_needs=0.0)
-        k = rng.choice([9, 10, 10, 10, 11, 12, 20, 21])
+        k = rng.choice([9, 10, 10, 10, 11, 12, 20, 21, 100, 101])  # 100 translations take the name counters to four digits
         keep = rng.random() < 0.5
         ops = [{"op": "new", "slot": 6, "backend": b}] if keep else []
         for _ in range(k):
